@@ -806,6 +806,15 @@ func (e *SpecEnv) call(n SCall) Val {
 		name := boundFnName(ms.V)
 		vc.decls.Fun(name, []Sort{SInt}, SInt)
 		return Val{K: KInt, T: App(SInt, name, xv.T)}
+	case "sentelem":
+		// sentelem(s, k): the address of element k (absolute position) of slice s was contained in a value sent over a channel
+		sv := e.Eval(n.Args[0])
+		kv := e.Eval(n.Args[1])
+		if sv.K != KSlice {
+			e.fail("sentelem(slice, absolute index)")
+		}
+		set := vc.heapGet(e.cur, "G.sentRefs", ArrSort(SInt, SBool))
+		return Val{K: KBool, T: Select(set, vc.elemKey(sv.T, e.term(kv)))}
 	case "strbytes":
 		// strbytes(s): the bytes of string s as an array (what []byte(s) holds)
 		sv := e.Eval(n.Args[0])
